@@ -80,7 +80,7 @@ Origin(sid, dst) ==
      h |-> socks[sid].h, p |-> socks[sid].p]
 
 \* Payload convention of the drivers: byte 1 = datagram id, byte 2 = sender
-\* socket id, byte i = i.
+\* socket id, byte i = i (a datagram of length 0 is empty).
 Payload(id, sid, n) == [i \in 1..n |-> IF i = 1 THEN id ELSE IF i = 2 THEN sid ELSE i]
 
 \* The copies <<t, p, dk>> a send produces, by destination class:
@@ -204,14 +204,38 @@ P_Arrive(id, t, p, dk) ==
     /\ py' = IF cls = "may"  THEN [py EXCEPT ![ArriveSock(t, p)] = @ \cup {id}] ELSE py
     /\ UNCHANGED <<socks, sends, rbuf, got, viol>>
 
-\* recv_from (polled once) / try_recv_from with a buffer of buf bytes returned
-\* res = [k |-> "empty"] or [k |-> "data", len, o, data]
+\* recv_from (polled once) / try_recv_from with a buffer of buf bytes (>= 1) returned
+\* res = [k |-> "empty"] or [k |-> "data", len, o, data].
+\* A datagram of length >= 1 is identified by its first byte.  A zero-length
+\* datagram carries nothing: it is matched to an outstanding zero-length
+\* datagram from the reported origin at this socket; all of those are
+\* indistinguishable for every later observation, so one is discharged -
+\* a required one first (that choice never turns a conforming run into a
+\* rejected one: it is a counting argument on must / may datagrams).
+ZeroCands(sid, o) ==
+    {id \in pm[sid] \cup py[sid] : sends[id].len = 0 /\ AddrEq(sends[id].o, o)}
+ZeroPick(sid, o) ==
+    LET C == ZeroCands(sid, o)
+        M == C \cap pm[sid]
+        S == IF M # {} THEN M ELSE C
+    IN CHOOSE id \in S : \A j \in S : id <= j
+
 P_Recv(sid, buf, res) ==
     IF res.k = "empty"
     THEN /\ viol' = viol \cup (IF pm[sid] # {} THEN {"ExactlyOnce"} ELSE {})
          /\ py' = [py EXCEPT ![sid] = {}]
          /\ rbuf' = [rbuf EXCEPT ![sid] = FALSE]
          /\ UNCHANGED <<socks, sends, arrd, pm, got>>
+    ELSE IF res.len = 0 /\ res.data = <<>>
+    THEN IF ZeroCands(sid, res.o) = {}
+         THEN /\ viol' = viol \cup {"OnlyTargeted"}        \* no zero-length datagram from there is outstanding
+              /\ rbuf' = [rbuf EXCEPT ![sid] = FALSE]
+              /\ UNCHANGED <<socks, sends, arrd, pm, py, got>>
+         ELSE LET id == ZeroPick(sid, res.o) IN
+              /\ pm' = [pm EXCEPT ![sid] = @ \ {id}] /\ py' = [py EXCEPT ![sid] = @ \ {id}]
+              /\ got' = got \cup {<<id, sid>>}
+              /\ rbuf' = [rbuf EXCEPT ![sid] = FALSE]
+              /\ UNCHANGED <<socks, sends, arrd, viol>>
     ELSE LET id    == IF Len(res.data) >= 1 THEN res.data[1] ELSE 0
              known == id \in Ids
              v1 == IF ~known THEN {"OnlyTargeted"}
